@@ -40,6 +40,51 @@ def _alarm(signum, frame):
     raise Hang()
 
 
+# ---- round 8: the nodes argument of node_depth handed over in other legal iterable forms (the helper
+# ---- ensure_wrapped_in_sequence accepts any Iterable): each denotes the list of its elements
+CONTAINERS = ('tuple', 'iterator', 'generator', 'dict-keys', 'dict-values', 'chain')
+
+
+def as_container(kind, xs):
+    """(the container handed to the implementation, the list it denotes)"""
+    xs = list(xs)
+    if kind == 'tuple':
+        return tuple(xs), xs
+    if kind == 'iterator':
+        return iter(xs), xs
+    if kind == 'generator':
+        return (x for x in xs), xs
+    if kind == 'dict-keys':          # insertion ordered, repeats dropped (nodes hash by uid / by key)
+        d = dict.fromkeys(xs)
+        return d.keys(), list(d)
+    if kind == 'dict-values':
+        return dict(enumerate(xs)).values(), xs
+    if kind == 'chain':              # one-shot iterator without __len__
+        return itertools.chain(xs[:1], xs[1:]), xs
+    raise ValueError(kind)
+
+
+def depth_variants(nodes, ix, queries, base, kinds=CONTAINERS):
+    """node_depth over every query handed over in every container kind.  A result equal to the one for the
+    plain list of the same elements is covered by that entry of ndlist; anything else (other element list
+    after dropping repeats, other answer, exception) becomes an entry of its own: [kind, elements, answer]."""
+    known = {tuple(vs): d for vs, d in base}
+    out = []
+    for vs in queries:
+        for kind in kinds:
+            arg, denoted = as_container(kind, [nodes[v] for v in vs])
+            dv = [ix(x) for x in denoted]
+            try:
+                d = int(node_depth(arg))
+            except ValueError:
+                d = None
+            if tuple(dv) in known and known[tuple(dv)] == d:
+                continue
+            out.append([kind, dv, d])
+            known.setdefault(tuple(dv), d)
+    return out
+
+
 # ---- user subclasses: the queries are defined on the stored structure (nodes_from, identity, uid), so
 # ---- a graph class that overrides root_node or a node class with its own __len__/__bool__/__eq__ must
 # ---- get the same answers as the stock classes
@@ -166,6 +211,7 @@ def observe(par, queries, flavour=STOCK):
             'dprim': [int(distance_to_primary_level(nd)) for nd in nodes],
             'droot': [droot(v) for v in range(len(nodes))],
         }
+        o['ndvariants'] = depth_variants(nodes, ix, queries, o['ndlist'])
     finally:
         signal.setitimer(signal.ITIMER_REAL, 0)
     # the queries must not have edited the graph
@@ -179,6 +225,17 @@ def nl(xs):
     return c_list([c_nat(x) for x in xs], 'nat')
 
 
+def ndl_all(o):
+    """node_depth(list) observations handed to Coq: the plain lists, then the container variants that are not
+    literally one of those"""
+    return list(o['ndlist']) + [[vs, d] for _, vs, d in o.get('ndvariants', [])]
+
+
+def variant_note(o):
+    bad = sorted({k for k, _, _ in o.get('ndvariants', []) if k != 'dict-keys'})
+    return (' [node_depth answers differently when the nodes are given as %s instead of a list]' % '/'.join(bad)) if bad else ''
+
+
 def case_coq(par, o):
     g = c_list([nl(ps) for ps in par], '(list nat)')
     ob = ('{| ob_cycle := %s; ob_depth := %s; ob_roots := %s; ob_children := %s; ob_edges := %s; '
@@ -188,7 +245,7 @@ def case_coq(par, o):
         c_list(['(%s, %s)' % (c_nat(p), c_nat(c)) for p, c in o['edges']], '(nat * nat)'),
         c_list([c_opt(h, nl, '(list nat)') for h in o['hier']], '(option (list nat))'),
         c_list([c_Z(d) for d in o['ndepth']], 'Z'),
-        c_list(['(%s, %s)' % (nl(vs), c_opt(d, c_Z, 'Z')) for vs, d in o['ndlist']], '(list nat * option Z)'),
+        c_list(['(%s, %s)' % (nl(vs), c_opt(d, c_Z, 'Z')) for vs, d in ndl_all(o)], '(list nat * option Z)'),
         c_list([c_Z(d) for d in o['dprim']], 'Z'),
         c_list([c_Z(d) for d in o['droot']], 'Z'))
     return '(%s, %s)' % (g, ob)
@@ -526,6 +583,7 @@ def observe_big(g, nodes, par, qnodes, queries):
                        'droot': droot(v)} for v in qnodes],
             'ndlist': [[list(vs), ndl(vs)] for vs in queries],
         }
+        o['ndvariants'] = depth_variants(nodes, ix, queries, o['ndlist'], kinds=('iterator', 'generator', 'tuple'))
     finally:
         signal.setitimer(signal.ITIMER_REAL, 0)
     if [[ix(p) for p in nd.nodes_from] for nd in g.nodes] != [list(ps) for ps in par] or \
@@ -542,7 +600,7 @@ def big_case_coq(lit, par, o):
     ob = '{| bo_cycle := %s; bo_depth := %s; bo_roots := %s; bo_edges := %s; bo_nodes := %s; bo_ndlist := %s |}' % (
         c_bool(o['cycle']), c_Z(o['depth']), nl(o['roots']),
         c_list(['(%s, %s)' % (c_nat(p), c_nat(c)) for p, c in o['edges']], '(nat * nat)'), qs,
-        c_list(['(%s, %s)' % (nl(vs), c_opt(d, c_Z, 'Z')) for vs, d in o['ndlist']], '(list nat * option Z)'))
+        c_list(['(%s, %s)' % (nl(vs), c_opt(d, c_Z, 'Z')) for vs, d in ndl_all(o)], '(list nat * option Z)'))
     return '(%s, %s, %s)' % (c_bool(lit), g, ob)
 
 
@@ -625,7 +683,8 @@ def evaluate_big(ctx, group, specs):
         for name, ok in zip(HOLDS, ho):
             if not ok:
                 ctx.violate(group, case, name + ' [graph of %d nodes, %s, %s order, built by %s]'
-                            % (n, case['kind'], case['order_name'], case['mode']))
+                            % (n, case['kind'], case['order_name'], case['mode'])
+                            + (variant_note(o) if 'list of nodes' in name else ''))
         for name, ok in zip(AGREE, ag):
             if not ok:
                 ctx.disagree(group, case, 'model and implementation differ on ' + name)
@@ -695,7 +754,8 @@ def evaluate(ctx, group, items):
         ag, ho = flags[:len(AGREE)], flags[len(AGREE):]
         for name, ok in zip(HOLDS, ho):
             if not ok:
-                ctx.violate(group, case, name + ('' if fl == STOCK else ' [node class %s, graph class %s]' % fl))
+                ctx.violate(group, case, name + ('' if fl == STOCK else ' [node class %s, graph class %s]' % fl)
+                            + (variant_note(o) if 'list of nodes' in name else ''))
         for name, ok in zip(AGREE, ag):
             if not ok:
                 ctx.disagree(group, case, 'model and implementation differ on ' + name)
@@ -711,6 +771,7 @@ def run(ctx):
                 'forests, chains, layered, disjoint unions) under random listing order and parent order; every node '
                 'is a query argument; the same queries on graphs of USER SUBCLASSES (LinkedGraph subclasses overriding root_node, '
                 'directly and as GraphDelegate delegate_cls; node subclasses with __len__, __bool__ (also ALWAYS falsy ones), key-based __eq__/__hash__); '
+                'node_depth over every node list also with the nodes handed over as tuple, one-shot iterator, generator, dict keys/values view, itertools.chain (same answer as for the list of the elements); '
                 'LARGE graphs of 15..500 nodes in three node orders and three builders; distinct = distinct parent-list structure; non-trivial = >= 2 nodes and >= 1 edge')
     ctx.trusted_extra = [
         'node identity is modelled by the position in graph.nodes (GOLEM nodes compare by identity and carry '
